@@ -22,6 +22,11 @@ def _parts(v):
     return None
 
 
+def _is_open(p):
+    """piece of unknown content (an alpha piece is known to contain letters only)"""
+    return isinstance(p, OpaqueStr) and not p.alpha
+
+
 def _has_digit(s):
     return any(c in '0123456789' for c in s)
 
@@ -98,14 +103,17 @@ def contains(v, lit):
     ps = _parts(v)
     if ps is None or not isinstance(lit, str) or lit == '':
         return NOTFOUND
-    if any(isinstance(p, OpaqueStr) for p in ps):
+    if any(_is_open(p) for p in ps):
         if any(isinstance(p, str) and lit in p for p in ps):
             return True
         return NOTFOUND
     if any(isinstance(p, str) and lit in p for p in ps):
         return True
-    if len(lit) == 1 and lit not in '0123456789':
+    has_alpha = any(isinstance(p, OpaqueStr) for p in ps)
+    if len(lit) == 1 and lit not in '0123456789' and not (has_alpha and lit.isalpha()):
         return False
+    if has_alpha:
+        return NOTFOUND
     if not _has_digit(lit):
         # a non-digit pattern can only occur inside one literal piece or across adjacent literals (already merged)
         return False
@@ -118,9 +126,9 @@ def split(I, v, sep):
     ps = _parts(v)
     if ps is None or not isinstance(sep, str) or sep == '' or all(c in '0123456789' for c in sep):
         return NOTFOUND
-    if any(isinstance(p, OpaqueStr) for p in ps):
+    if any(_is_open(p) for p in ps):
         return NOTFOUND
-    if len(sep) != 1:
+    if len(sep) != 1 or sep.isalpha():
         return NOTFOUND
     out = [[]]
     for p in ps:
@@ -249,7 +257,7 @@ def equal(a, b):
 def lower(v):
     from .lib import str_from_parts
     ps = _parts(v)
-    if ps is None or any(isinstance(p, OpaqueStr) for p in ps):
+    if ps is None or any(_is_open(p) for p in ps):
         return NOTFOUND
     return str_from_parts([p.lower() if isinstance(p, str) else p for p in ps])
 
@@ -259,7 +267,7 @@ def strip(v):
     ps = _parts(v)
     if ps is None or not ps:
         return NOTFOUND if ps is None else ''
-    if isinstance(ps[0], OpaqueStr) or isinstance(ps[-1], OpaqueStr):
+    if _is_open(ps[0]) or _is_open(ps[-1]):
         return NOTFOUND
     ps = list(ps)
     if isinstance(ps[0], str):
